@@ -66,8 +66,12 @@ pub struct SchedCase {
 }
 
 pub fn gen_case(rng: &mut Rng, reader_heavy: bool, thorough: bool) -> SchedCase {
+  // a quarter of the reader-heavy cases run on InMemoryStorage (kept readers
+  // share buffers with the storage there); one writer thread then, because what
+  // overlapping handles inherit from each other is only judged on FsStorage
+  let in_memory = reader_heavy && rng.chance(1, 4);
   let cfg = Cfg {
-    storage: StorageKind::Fs,
+    storage: if in_memory { StorageKind::Mem } else { StorageKind::Fs },
     profile: *rng.pick(&[Profile::Basic, Profile::Basic, Profile::Nested]),
     positions: rng.chance(1, 2),
     ids: 1 + rng.usize(3),
@@ -100,7 +104,13 @@ pub fn gen_case(rng: &mut Rng, reader_heavy: bool, thorough: bool) -> SchedCase 
     ver += 1;
   }
   setup.push(Op::DropWriter { h: 99 });
-  let nwriters = if reader_heavy { 1 + rng.usize(2) } else { 2 + rng.usize(if thorough { 3 } else { 2 }) };
+  let nwriters = if in_memory {
+    1
+  } else if reader_heavy {
+    1 + rng.usize(2)
+  } else {
+    2 + rng.usize(if thorough { 3 } else { 2 })
+  };
   let mut threads: Vec<Vec<TOp>> = Vec::new();
   for _ in 0..nwriters {
     let mut ops = vec![TOp::NewWriter];
@@ -550,7 +560,14 @@ pub fn run_case(case: &SchedCase, wroot: &Path, stats: &mut Stats) -> SchedRun {
   let end = sched.stamp();
   let live = observe_index(&index).map_err(|o| o.short()).and_then(|o| o.to_contents());
   drop(index);
-  let disk = Session::open(cfg, &root, Some(fs.clone())).map_err(|o| o.short()).and_then(|s| s.observe().map_err(|o| o.short())).and_then(|o| o.to_contents());
+  let disk = if cfg.storage == StorageKind::Mem {
+    session.open_fresh_index().map_err(|o| o.short()).and_then(|i| observe_index(&i).map_err(|o| o.short())).and_then(|o| o.to_contents())
+  } else {
+    Session::open(cfg, &root, Some(fs.clone())).map_err(|o| o.short()).and_then(|s| s.observe().map_err(|o| o.short())).and_then(|o| o.to_contents())
+  };
+  if cfg.storage == StorageKind::Mem {
+    stats.inc("probe.in_memory_storage_runs");
+  }
   let (live, disk) = match (live, disk) {
     (Ok(l), Ok(d)) => (l, d),
     (l, d) => {
